@@ -9,6 +9,7 @@ import JominiModel.Proofs.BinTapeCut
 import JominiModel.Proofs.BinTapeMirror
 import JominiModel.Proofs.BinTapeReuse
 import JominiModel.Proofs.BinTapeDropped
+import JominiModel.Proofs.BinTapeMoves
 import JominiModel.Proofs.BinTapeDead
 import JominiModel.Proofs.BinTapeUniform
 /-
@@ -187,15 +188,52 @@ theorem C03_debug_asserts_unreachable (data : Bytes) :
 example : Reach (init [0x82, 0x2d, 0x11, 0x11]) ⟨[.token 0x2d82, .token 0x1111], 0, .objectToArray, []⟩ :=
   ⟨2, rfl⟩
 
-/-- **What the tape leaves out, exactly — for every accepted byte string, the quirk included.**  The lexeme
-list `L` of the input is an interleaving (`InterT`: both parts in their original order) of the flattened
-tape and a list `D` of dropped lexemes, and every dropped lexeme carries its cause: `eqAfterKey` (it is an
-`=`: the one after a key, including the `=` that triggers the only_empties rewrite), `ghost` (a `{` or `}`
-of a ghost object in key position), `emptyRun` (a `{` or `}` of an empty container discarded by the
-only_empties rewrite, tape.rs:600-616), `oddToken` (the one token `chunks_exact(2)` overlooks in that
-rewrite — the pinned quirk).  Hence each input lexeme appears exactly once in tape ∪ dropped:
-`L` is a permutation of `flat T ++ dropped`, and `|L| = |flat T| + |dropped|`. -/
+/-- **What the tape leaves out, exactly and with its context — for every accepted byte string, the quirk
+included.**  `Moves [] L (flat T) odds` (Spec/BinTapeLex.lean): starting from the empty tape, reading the lexeme
+list `L` of the input, the lexeme content of the tape evolves into `flat T` by a sequence of `Move`s, one per
+loop iteration, and there are only four:
+* `keep`       — all lexemes read are appended to the tape content;
+* `eqAfterKey` — one `=` is read and not recorded, and the tape content ends with a scalar lexeme `tok k`
+                 (the key it follows): an `=` is dropped ONLY directly behind a key;
+* `ghost`      — an adjacent `{ }` pair is read and not recorded;
+* `rewrite`    — (only_empties, tape.rs:600-616) one `=` is read and not recorded while the tape content ends
+                 with `{`, `n ≥ 1` empty containers `{ }`, at most one further tape token (`odd`, the token
+                 `chunks_exact(2)` overlooks), and the token `last`; the empty containers and `odd` are removed.
+`odds` lists the `odd` chunk of every `rewrite`, so its length is the number of rewritten containers.  A tape
+that silently dropped any other lexeme is NOT explained by any run of moves (non-instance below). -/
 theorem C03_dropped_lexemes (opt : Bool) (data : Bytes) (T : Tape) (h : parse opt data = .ok T)
+    (L : List Lx) (hL : Lexes data L) : ∃ odds, Moves [] L (flat T) odds :=
+  parse_moves opt data T h L hL
+
+/-- **No scalar / id lexeme is dropped, except at most one tape token per only_empties-rewritten container.**
+As multisets, the scalar / id lexemes of the input are those of the tape plus those of the `odd` chunks; there
+is one chunk per rewrite move, and each chunk is empty or the lexemes of a single tape token. -/
+theorem C03_no_scalar_dropped (opt : Bool) (data : Bytes) (T : Tape) (h : parse opt data = .ok T)
+    (L : List Lx) (hL : Lexes data L) :
+    ∃ odds : List (List Lx), Moves [] L (flat T) odds ∧ (∀ o ∈ odds, o = [] ∨ ∃ y : BTok, o = flatten y) ∧
+      (L.filter Lx.isTok).Perm ((flat T).filter Lx.isTok ++ odds.flatten.filter Lx.isTok) := by
+  obtain ⟨odds, hm⟩ := parse_moves opt data T h L hL
+  exact ⟨odds, hm, hm.odds_shape, by simpa using hm.toks_perm⟩
+
+/-- NON-instance: input `a = b` with tape content `[a]` (the scalar `b` silently dropped) is not explained by
+any run of moves; the honest content `[a, b]` is -/
+example :
+    (¬ ∃ odds, Moves [] [.tok (.token 1), .equal, .tok (.token 2)] [.tok (.token 1)] odds) ∧
+    Moves [] [.tok (.token 1), .equal, .tok (.token 2)] [.tok (.token 1), .tok (.token 2)] [] := by
+  constructor
+  · rintro ⟨odds, h⟩
+    have h0 := h.no_open (by simp) (by simp)
+    have hp := h.toks_perm
+    rw [h0.1] at hp
+    have := hp.length_eq
+    simp [List.filter, Lx.isTok] at this
+  · exact Moves.step (Move.keep [] [.tok (.token 1)]) (Moves.step (Move.eqAfterKey [] (.token 1))
+      (Moves.step (Move.keep _ [.tok (.token 2)]) (Moves.nil _)))
+
+/-- (weak form, kept for reference: an interleaving with cause TAGS.  GAP: the tags carry no context and
+`oddToken` admits any lexeme any number of times, so this statement alone follows from
+`C03_tape_mirrors_lexemes`; use `C03_dropped_lexemes` / `C03_no_scalar_dropped`.) -/
+theorem C03_dropped_lexemes_partial (opt : Bool) (data : Bytes) (T : Tape) (h : parse opt data = .ok T)
     (L : List Lx) (hL : Lexes data L) :
     ∃ D : List (Lx × DropKind), InterT (flat T) D L ∧ (∀ p ∈ D, DropOk p) ∧
       L.Perm (flat T ++ D.map Prod.fst) ∧ L.length = (flat T).length + D.length := by
@@ -250,8 +288,12 @@ example : parseInto true ⟨[.token 1, .array 3, .end_ 1, .token 9], 3⟩ [0x82,
 /-- **The key kind is unobservable** (the dimension the seeded defect C06_r7_2 lived in).  For any two
 well-formed scalar lexemes `k1`, `k2` — of any of the ten kinds: id, quoted, unquoted, i32, u32, i64, u64,
 f32, f64, bool — and EVERY continuation `rest` (in particular `= { …`), the inputs `k1 rest` and `k2 rest`
-are both rejected with the same error, or both accepted with tapes that agree position by position except
-that where the first has `k1`'s token the second has `k2`'s (`RelT`).  So the four key-kind fast paths of
+are both rejected with the same error, or both accepted with tapes of the same length related by `RelT`:
+at EVERY position the two tokens are equal, or the first is `k1.tok` and the second `k2.tok`.  NB what the
+relation allows: it does not pin the swap to the key position or to one occurrence (the key can move — a
+root that turns mixed gets a `MixedContainer` marker inserted in front of it — and can vanish as the odd
+token of an only_empties rewrite); a token of `rest` that happens to equal `k1.tok` is matched by the same
+token (both tapes come from the same `rest`), but `RelT` as a predicate would also admit the swapped pair there.  So the four key-kind fast paths of
 the optimised parser (token id, quoted, i32, and "none" for the other kinds) are unobservable relative to
 each other, not only relative to the reference; a container is typed and delimited the same way whatever
 the kind of the key in front of it. -/
